@@ -36,8 +36,9 @@ Init == \/ \E i \in DOMAIN Polys, lim \in Limits \cup {0, 4}, s \in Scalings :
         \* non-simple paths through the GDSII writer (C01): flexible and robust, 1-2 elements
         \/ \E sp \in PathSpines, wo \in PathWidths, en \in {0, 2}, jn \in {0, 1, 2}, rb \in BOOLEAN :
               /\ (rb => jn = 0)
-              /\ case = [k |-> "gdspath", spine |-> sp, widths |-> wo[1], offs |-> wo[2], end |-> en, join |-> jn,
-                         robust |-> rb, s |-> 4, ip |-> 0, limit |-> 0]
+              /\ \E lim \in {0, 6} :        \* with a vertex limit the outline polygons are fractured as well
+                 case = [k |-> "gdspath", spine |-> sp, widths |-> wo[1], offs |-> wo[2], end |-> en, join |-> jn,
+                         robust |-> rb, s |-> 4, ip |-> 0, limit |-> lim]
         \/ \E i \in DOMAIN Polys, c \in CutLists, ax \in {"x", "y"}, s \in Scalings :
               case = [k |-> "slice", p |-> Polys[i], ip |-> i, cuts |-> c, axis |-> ax, s |-> s]
 Next == UNCHANGED case
